@@ -399,6 +399,30 @@ theorem plugin_invariant (now : Nat) (ops : List Plug.POp) (r : Plug.PState × L
   (prun_inv ops _ r (pinit_inv now) h).1
 
 open Plug in
+/-- **The id discipline**: in every reachable state — in particular right after `_restoreEvents`,
+after a reload as after a restart of the bot — every integer name in the schedule and every integer
+id in the plugin's table is below `schedule.counter` (a restored id is kept only when the counter is
+already past it; otherwise the event gets a new id and the counter moves on). -/
+theorem ids_below_counter (now : Nat) (ops : List Plug.POp) (r : Plug.PState × List Plug.PEv)
+    (h : Plug.prun (Plug.pinit now) ops = some r) :
+    (∀ e ∈ r.1.sched, ∀ n, e.name = .num n → n < r.1.counter) ∧
+    (∀ i rec, (Key.id i, rec) ∈ r.1.table → i < r.1.counter) :=
+  have hi := (plugin_invariant now ops r h).1
+  ⟨hi.numLt, fun i rec hm => (hi.idLt i rec hm).1⟩
+
+open Plug in
+/-- … hence **an anonymous `schedule.addEvent(f, t)` by any component never fails** (its
+`assert name not in self.events` cannot fire): the counter name it takes is free, whatever was
+restored before. -/
+theorem anonymous_add_never_fails (now : Nat) (ops : List Plug.POp) (r : Plug.PState × List Plug.PEv)
+    (h : Plug.prun (Plug.pinit now) ops = some r) (mk : Name → PFn) (t : Nat) :
+    (addEv r.1 mk t none).2 = some (.num r.1.counter) := by
+  have hi := (plugin_invariant now ops r h).1
+  have hf := num_fresh hi
+  simp only [addEv]
+  rw [if_neg hf]
+
+open Plug in
 /-- **No command runs on behalf of a dead plugin instance, none finds its table entry gone**
 (the two ways the pinned tree ran events twice or not at all around reloads). -/
 theorem plugin_no_stale_runs (now : Nat) (ops : List Plug.POp) (r : Plug.PState × List Plug.PEv)
